@@ -84,7 +84,7 @@ func mutate(t *rapid.T, b []byte) ([]byte, string) {
 	walk(b, 0, &bs)
 	var notes []string
 	for k := rapid.IntRange(1, 3).Draw(t, "nmut"); k > 0; k-- {
-		op := rapid.SampledFrom([]string{"size", "size", "size-rel", "type", "truncate", "truncate-box", "u32", "u32", "append", "dup", "swap", "flip", "zero-tail"}).Draw(t, "mut")
+		op := rapid.SampledFrom([]string{"size", "size", "size-wrap", "size-rel", "type", "truncate", "truncate-box", "u32", "u32", "append", "dup", "swap", "flip", "zero-tail"}).Draw(t, "mut")
 		if len(bs) == 0 && op != "append" && op != "truncate" {
 			op = "flip"
 		}
@@ -97,6 +97,25 @@ func mutate(t *rapid.T, b []byte) ([]byte, string) {
 			v := rapid.SampledFrom(hostileSizes).Draw(t, "size")
 			binary.BigEndian.PutUint32(b[x.off:], v)
 			notes = append(notes, fmt.Sprintf("%s.size=%d", x.typ, v))
+		case "size-wrap":
+			// a top-level box that is not the first one declares a size reaching (just) beyond the 32-bit offset range,
+			// so that offset+size wraps around to the start of an earlier box
+			var top []box
+			pp := 0
+			for _, x := range bs {
+				if x.off == pp {
+					top = append(top, x)
+					pp += x.size
+				}
+			}
+			if len(top) < 2 {
+				continue
+			}
+			k := rapid.IntRange(1, len(top)-1).Draw(t, "wrapbox")
+			back := top[rapid.IntRange(0, k).Draw(t, "wrapto")].off
+			v := uint32((uint64(1)<<32 - uint64(top[k].off) + uint64(back)) & 0xffffffff)
+			binary.BigEndian.PutUint32(b[top[k].off:], v)
+			notes = append(notes, fmt.Sprintf("%s.size=%#x (wraps to offset %d)", top[k].typ, v, back))
 		case "size-rel":
 			x := rapid.SampledFrom(bs).Draw(t, "box")
 			d := rapid.SampledFrom([]int{-9, -8, -4, -1, 1, 4, 8, 9, 1 << 10}).Draw(t, "dsize")
